@@ -194,7 +194,7 @@ func trunc(a []uint64, n int) []uint64 {
 
 func TestVerif_C17(t *testing.T) {
 	rep := verifkit.NewReport("C17")
-	rep.Rule = "each stream: the scripted server holds notifications with ids 1..K (Tx for odd, TxUpdate for even) and, like the real service, (re)sends from the id given in Ready on every connection, perturbed by duplicates, earlier ids, ids skipped ahead, interleaved Headers/InSync and connection drops at generated points; the application handler declares Ready(NextMessageID()) on every accept. A ChainTip marker through the same handler channel is the barrier. Families: normal (K<=60), slow-handler (K=130, handler sleeps 25 ms per notification, message channel time-out 15 ms, so the 100-slot handler channel overflows). Non-trivial = stream contains a perturbation or a drop; distinct by perturbation sequence"
+	rep.Rule = "each stream: the scripted server holds notifications with ids 1..K (Tx for odd, TxUpdate for even) and, like the real service, (re)sends from the id given in Ready on every connection, perturbed by duplicates, earlier ids, ids skipped ahead, interleaved Headers/InSync and connection drops at generated points; the application handler declares Ready(NextMessageID()) on every accept. A ChainTip marker through the same handler channel is the barrier. Families: normal (K<=60), backlog-drop (handler 3 ms per notification, drops while a backlog is queued, Ready declared from the handler's own progress), slow-handler (K=130, handler sleeps 25 ms per notification, message channel time-out 15 ms, so the 100-slot handler channel overflows). Non-trivial = stream contains a perturbation or a drop; distinct by perturbation sequence"
 	rep.Assumptions = []string{"the scripted server resumes from the Ready id as the real service does", "barrier = marker message delivered through the client's FIFO handler channel"}
 	defer rep.Write()
 
@@ -208,6 +208,17 @@ func TestVerif_C17(t *testing.T) {
 		opt := cOpt{connType: ConnectionTypeFull, requestTimeout: time.Second, messageTimeout: 2 * time.Second,
 			handshakeTO: 2 * time.Second, retryDelay: 20 * time.Millisecond, autoReady: true, handlers: 1 + r.Intn(3)}
 		s := &c17Server{total: uint64(5 + r.Intn(56)), r: rand.New(rand.NewSource(r.Int63())), dropsLeft: r.Intn(4), perturb: r.Intn(5) > 0, finished: make(chan struct{})}
+		if ci%6 == 4 {
+			// a backlog in the handler channel at the moment of a drop; the application declares
+			// ready from its own progress (last handled id + 1), as cmd/client does
+			family = "backlog-drop"
+			opt.handlerDelay = 3 * time.Millisecond
+			opt.readyOwn = true
+			opt.handlers = 1
+			s.total = uint64(40 + r.Intn(40))
+			s.dropsLeft = 1 + r.Intn(3)
+			s.perturb = false
+		}
 		if ci%6 == 5 {
 			family = "slow-handler"
 			opt.handlerDelay = 25 * time.Millisecond
